@@ -72,6 +72,48 @@ CALL_TYPES = {
 }
 
 
+def resolution_positive(ctx, fi, pm, rule):
+  """Location-independent: "every event time is non-negative".  Event times are ticks x seconds-per-tick, and seconds-per-tick is
+  60 / (tempo x resolution): a negative resolution makes every time after the first tempo change negative.  Whether the
+  third-party loader can hand over a negative resolution is read from the installed sources (sa.pmfacts: mido unpacks the
+  header's division as a signed short, so an SMPTE division arrives negative; PrettyMIDI stores it unchecked).  If it can, no
+  return of midi_to_note_sequence may be reachable with midi.resolution == -1 (three-valued evaluation of the path conditions)."""
+  from sa import scenario
+  can, why = pm.division_can_be_negative()
+  cons = 'a non-positive resolution (SMPTE division) is rejected with MIDIConversionError'
+  if can is None:
+    ctx.ob(rule, fi, fi.node, False, why, construct=cons, unknown='cannot classify: ' + why)
+    return
+  if can is False:
+    ctx.ob(rule, fi, fi.node, True, 'the installed loader cannot produce a negative resolution (%s)' % why, construct=cons)
+    return
+  fn = fi.node
+  obj = None
+  for st in U.walk_stmts(fn):
+    if isinstance(st, ast.Assign) and isinstance(st.value, ast.Attribute) and st.value.attr == 'resolution':
+      obj = norm_text(st.value)
+  for n in ast.walk(fn):
+    if obj is None and isinstance(n, ast.Attribute) and n.attr == 'resolution':
+      obj = norm_text(n)
+  rets = [r for r in U.walk_stmts(fn, into_nested=False) if isinstance(r, ast.Return)]
+  if obj is None or not rets:
+    whyu = 'cannot classify: midi_to_note_sequence does not read .resolution / has no return'
+    ctx.ob(rule, fi, fn, False, whyu, construct=cons, unknown=whyu)
+    return
+  for r in rets:
+    conds = [(U.expand_locals(fn, t, at=r), p) for t, p in U.path_conditions(fn, r)]
+    objx = norm_text(U.expand_locals(fn, U.E(obj), at=r))      # the same object as the expanded conditions spell it
+    res = scenario.tv_all(conds, scenario.subst_of([(obj, '-1'), (objx, '-1')])) if conds else True
+    if res is False:
+      ctx.ob(rule, fi, r, True, 'the return is unreachable with %s == -1' % obj, construct=cons)
+    elif any(any(norm_text(x) in (obj, objx) for x in ast.walk(t)) for t, _p in conds) and res is None:
+      whyu = 'cannot classify: the conditions on %s before the return cannot be evaluated at -1' % obj
+      ctx.ob(rule, fi, r, False, whyu, construct=cons, unknown=whyu)
+    else:
+      ctx.ob(rule, fi, r, False, '%s; midi_to_note_sequence returns a NoteSequence built from it without testing %s: a file with an SMPTE division and a tempo change comes '
+             'back with negative tempo times and a negative ticks_per_quarter instead of MIDIConversionError' % (why, obj), construct=cons, definite=True)
+
+
 def run(ctx):
   pm = pmfacts.PMFacts()
   for t, tab in ATTR_TYPES.items():
@@ -87,6 +129,7 @@ def run(ctx):
          'PrettyMIDI.get_tempo_changes is not a pure getter in the installed version', construct='PrettyMIDI.get_tempo_changes is pure')
 
   fi = ctx.func('midi_io:midi_to_note_sequence')
+  resolution_positive(ctx, fi, pm, 'WELLFORMED/resolution-positive')
   ctor(ctx, fi)
   call_types = dict(CALL_TYPES)
   an = esc.ClosedWorld(ctx, fi, ALLOWED, ATTR_TYPES, ctx.S, {'midi_data': 'bytes'}, call_types)
@@ -252,6 +295,10 @@ def wrappers(ctx):
 
 
 MUTANTS = [
+    Mutant('F28 reverted: a non-positive resolution (SMPTE division) is accepted', F, "  if midi.resolution <= 0:\n    raise MIDIConversionError(\n        'Unsupported time division (resolution %d)' % midi.resolution)\n", '', rule='WELLFORMED/'),
+    Mutant('resolution guard tests != 0 only', F, "  if midi.resolution <= 0:\n    raise MIDIConversionError(", "  if midi.resolution == 0:\n    raise MIDIConversionError(", rule='WELLFORMED/'),
+    Mutant('resolution guard written as not > 0 (harmless)', F, "  if midi.resolution <= 0:\n    raise MIDIConversionError(", "  if not midi.resolution > 0:\n    raise MIDIConversionError(", expect='silent'),
+
     Mutant('seed C16_e: the error records the cause message in a constructor that can raise IndexError', F, "class MIDIConversionError(Exception):\n  pass\n",
            "class MIDIConversionError(Exception):\n\n  def __init__(self, *args):\n    super().__init__(*args)\n    cause = sys.exc_info()[1]\n    self.reason = cause.args[0] if cause is not None else None\n", rule='ESC/exception-class'),
     Mutant('the error class gets a docstring (harmless)', F, "class MIDIConversionError(Exception):\n  pass\n", 'class MIDIConversionError(Exception):\n  \"\"\"Raised when MIDI data cannot be converted.\"\"\"\n', expect='silent'),
